@@ -73,7 +73,7 @@ def configs(tier, seed):
         cfgs.append(dict(name="aim2:r7:add", mech="aim", rounds=7, nb="add", sizes=(2, 2), attrs="ab", workload=[("a", "b")], depth=6,
                          cost=200, timeout=1500, max_paths=3000, core=False))
     for nb in (["remove"] if tier == "quick" else ["remove", "add"]):
-        for split in ([None] if tier == "quick" else [None, [0.1, 0.1, 0.8]]):
+        for split in [None, [0.1, 0.1, 0.8]]:
             for targets in ([[]] if tier == "quick" else [[], ["b"]]):
                 cfgs.append(dict(name="adagrid:%s:split%s:targets%s" % (nb, "default" if split is None else "custom", "".join(targets) or "none"),
                                  mech="adagrid", nb=nb, split=split, targets=targets, sizes=(2, 2) if not targets else (2, 2, 2),
